@@ -524,6 +524,12 @@ def main(argv):
         st['viol_list'] = [v for v in st['viol_list'] if v['op'] in a.ops.split(',')]
     if randcov:
         extra_cov['random_extra_configurations'] = randcov
+    if tier == 'thorough' and not hasattr(prop, 'make_tasks') and not a.cfg and os.environ.get('VERIF_COVERAGE', '1') != '0':
+        try:
+            import aux
+            extra_cov['reach_audit'] = aux.coverage_audit(sys.modules[__name__], prop, tier, seed, st, a.jobs)
+        except Exception:
+            extra_cov['reach_audit'] = {'skipped': traceback.format_exc()[-400:]}
     return finish(pid, prop, tier, seed, st, t0, extra_cov)
 
 
